@@ -413,7 +413,7 @@ class SymExec:
                 raise Undecided("loop target")
             v = Symbol(st.target.id, integer=True)
             self.env[st.target.id] = v
-            self.body_once(st, v, lo, hi)
+            self.body_once(st, v, lo, hi, {st.target.id})
             return
         if isinstance(it, ast.Call) and isinstance(it.func, ast.Name) and it.func.id == "enumerate":
             arr = self.ev(it.args[0])
@@ -423,11 +423,11 @@ class SymExec:
             v = Symbol(iv.id, integer=True)
             self.env[iv.id] = v
             self.env[xv.id] = arr.read([v])
-            self.body_once(st, v, Integer(0), Symbol(f"n0_{arr.name}", integer=True, positive=True))
+            self.body_once(st, v, Integer(0), Symbol(f"n0_{arr.name}", integer=True, positive=True), {iv.id, xv.id})
             return
         raise Undecided(f"loop over `{src(it)[:40]}`")
 
-    def body_once(self, st, v, lo, hi):
+    def body_once(self, st, v, lo, hi, bound_names=frozenset()):
         """execute the body once with the loop variable symbolic; cells whose key does not
         involve v and that are updated additively become sums"""
         before = self.snapshot()
@@ -455,7 +455,7 @@ class SymExec:
                     val.cells[idx] = old + sp.Sum(d, (v, lo, hi - 1))
             elif isinstance(val, sp.Basic) and k in before and isinstance(before[k], sp.Basic):
                 old = before[k]
-                if old != val and k != str(v):
+                if old != val and k != str(v) and k not in bound_names:
                     d = sp.expand(val - old)
                     if v in d.free_symbols or True:
                         if _depends_on_expr(d, old) and old != 0:
